@@ -297,3 +297,36 @@ func c01SGRAlgebra(c *Ctx) {
 		c.counts["C01.h"]++
 	}
 }
+
+
+// C10.k — the hand-off rule of C03.b seen from the shutdown side: in the input goroutine's context every
+// channel send is the queue send or a select arm with default/timer, and there is no other blocking receive.
+// An input goroutine parked on a hand-off stops draining the parser; the parser then blocks on its
+// two-slot channel, never sees the close signal, and Suspend/Close wait for it for ever.
+func init() { registerExtra("C10", c10InputNeverParks) }
+
+func c10InputNeverParks(c *Ctx) {
+	c.Clauses = append(c.Clauses, "C10.k the input goroutine never parks outside its loop select: every send in its context is the queue send or a select arm with default/timer, no other blocking receive (else the parser it drains blocks and Close/Suspend wait for ever)")
+	c.expect("C10.k", 3)
+	x := &c03Env{c: c}
+	x.pk = c.P.Pkg("vaxis")
+	if x.pk == nil {
+		c.undecided("C10.k", "setup/package vaxis", 0, "root package not found")
+		return
+	}
+	x.info = x.pk.TypesInfo
+	x.par = c.P.Parents(x.pk)
+	x.handle = c.P.Func("vaxis.(*Vaxis).handleSequence")
+	x.openFi = c.P.Func("vaxis.(*Vaxis).openTty")
+	if x.handle == nil || x.openFi == nil {
+		c.undecided("C10.k", "setup/handleSequence, openTty", 0, "anchor functions not found")
+		return
+	}
+	x.findInputGoroutine()
+	if x.loop == nil {
+		c.undecided("C10.k", "vaxis/input goroutine", x.openFi.Decl.Pos(), "input goroutine not found")
+		return
+	}
+	x.buildReach()
+	x.ruleBAs("C10.k")
+}
